@@ -1,6 +1,9 @@
-\* GF(2^3), x^3 + x + 1 (the field of the exhaustive Shamir model): all 64 pairs
+\* GF(2^3), x^3 + x + 1 (the field of the exhaustive Shamir model): every element as first operand, every pair / triple
 CONSTANTS M = 3
 LowN = 3
+ASel = 0
+ASeed = 0
 INIT Init
 NEXT Next
-INVARIANTS Closed Commutative Associative Distributive Neutral Inverses NoZeroDivisor ZeroHasNoInverse PowIsRepeatedProduct
+CHECK_DEADLOCK FALSE
+INVARIANTS TablesClosed Commutative Associative Distributive Neutral Inverses NoZeroDivisor ZeroHasNoInverse PowIsRepeatedProduct
